@@ -296,10 +296,11 @@ fn execute(case: &Case, alpha: &[Item], ctx: &WorkerCtx) -> ExecResult {
             if let (_, Exp::Wait(secs)) = &wire[k] { tokio::time::advance(std::time::Duration::from_secs(*secs)).await; cw.w.settle(&mut cw.peer, &probe).await; continue; }
             match case.seg {
                 0 => { cw.peer.send(bytes); }
-                1 => { for b in bytes { cw.peer.send(&[*b]); cw.w.settle(&mut cw.peer, &probe).await; } }
+                // (a millisecond or two pass between the pieces: on a frozen clock a wait that gives up too early would go unnoticed)
+                1 => { for b in bytes { cw.peer.send(&[*b]); cw.w.settle(&mut cw.peer, &probe).await; tokio::time::advance(std::time::Duration::from_millis(1)).await; } }
                 s => {
                     let off = s - 2;
-                    if k == 0 && off > 0 && off < bytes.len() { cw.peer.send(&bytes[..off]); cw.w.settle(&mut cw.peer, &probe).await; cw.peer.send(&bytes[off..]); } else { cw.peer.send(bytes); }
+                    if k == 0 && off > 0 && off < bytes.len() { cw.peer.send(&bytes[..off]); cw.w.settle(&mut cw.peer, &probe).await; tokio::time::advance(std::time::Duration::from_millis(2)).await; cw.w.settle(&mut cw.peer, &probe).await; cw.peer.send(&bytes[off..]); } else { cw.peer.send(bytes); }
                 }
             }
             cw.w.settle(&mut cw.peer, &probe).await;
